@@ -28,6 +28,9 @@ def errchk_rules(r, n_debug=0, n_always=0, ret="", label=""):
               lambda m: "if (!(%s)) { ghost_threw = 1; return %s; }" % (m.group(1).strip(), ret), n_always, flags=re.S)
 
 
+ARITY2 = r"\b%s\(((?:[^(),;]|\([^()]*\))+),"      # a call with at least two arguments: name(arg1, ...
+
+
 def assert_rule(r, n):
     r.sub("assert() -> obligation", r"\bassert\(([^;]*)\);", lambda m: 'VERIF_ASSERT(%s, "%s");' % (m.group(1), r.name), n)
 
@@ -45,6 +48,7 @@ def this_rules(r):
         r.sub("forwarder collapsed: %s() is %s() (this->Base::%s -> const_cast<T*>(this->CBase::%s))" % (a, b, a, b),
               r"(?<![\w.>])%s\(\)" % a, "%s()" % b, None, 0)
     r.sub("implicit-this-call: max_size() -> ArrayIndexTraits<X>::max_size() (model)", r"(?<![\w.>])max_size\(\)", "max_size_()", None, 0)
+    r.sub("reference->pointer: &back() (back() returns the element's address here)", r"&back\(\)", "back()", None, 0)
     for nm in SELF0:
         r.sub("implicit-this-call:" + nm, r"(?<![\w.>])%s\(\)" % nm, "%s(self)" % nm, None, 0)
     for nm in SELFN:
@@ -220,7 +224,7 @@ def build_array_unit(ctx, with_loop_contracts=False):
             errchk_rules(r, n_debug=1)
             r.sub("overload by arity: erase(first,last1)", r"\berase\(", "erase_range(", 1)
             r.sub("overload by arity: %s(b,e)" % ("defaultConstruct" if not fill else "fillConstruct"),
-                  r"\bdefaultConstruct\(", "defaultConstruct_range(", 0 if fill else 1)
+                  ARITY2 % "defaultConstruct", r"defaultConstruct_range(\1,", 0 if fill else 1)
         return f
     u.fn(r"void resize\(size_type n\)\s*", A + "resize(n)", "void resize(struct Arr* self, size_type n)", x_resize(False))
     u.fn(r"void resize\(size_type n, const T& initVal\)\s*", A + "resize(n,initVal)",
@@ -239,24 +243,22 @@ def build_array_unit(ctx, with_loop_contracts=False):
 
     def x_pop(r):
         errchk_rules(r, n_debug=1)
-        r.sub("reference->pointer: &back()", r"&back\(\)", "back()", 1)
     u.fn(r"void pop_back\(\)\s*", A + "pop_back", "void pop_back(struct Arr* self)", x_pop)
 
     def x_erase_range(r):
         errchk_rules(r, n_debug=2)
-        r.sub("overload by arity: destruct(b,e)", r"\bdestruct\(first, last1\)", "destruct_range(first, last1)", 1)
+        r.sub("overload by arity: destruct(b,e)", ARITY2 % "destruct", r"destruct_range(\1,", 1)
     u.fn(r"T\* erase\(T\* first, const T\* last1\)\s*", A + "erase(first,last1)",
          "Elem* erase_range(struct Arr* self, Elem* first, const Elem* last1)", x_erase_range)
     u.fn(r"T\* erase\(T\* p\)\s*", A + "erase(p)", "Elem* erase_one(struct Arr* self, Elem* p)", lambda r: errchk_rules(r, n_debug=2))
 
     def x_erasefast(r):
         errchk_rules(r, n_debug=2)
-        r.sub("reference->pointer: &back()", r"&back\(\)", "back()", 1)
     u.fn(r"T\* eraseFast\(T\* p\)\s*", A + "eraseFast", "Elem* eraseFast(struct Arr* self, Elem* p)", x_erasefast)
 
     def x_clear(r):
         errchk_rules(r, n_debug=1)
-        r.sub("overload by arity: destruct(b,e)", r"\bdestruct\(begin\(\), end\(\)\)", "destruct_range(begin(), end())", 1)
+        r.sub("overload by arity: destruct(b,e)", ARITY2 % "destruct", r"destruct_range(\1,", 1)
     u.fn(r"void clear\(\)\s*", A + "clear", "void clear(struct Arr* self)", x_clear)
 
     def x_insert(r):
@@ -266,3 +268,179 @@ def build_array_unit(ctx, with_loop_contracts=False):
          "Elem* insert_n(struct Arr* self, Elem* p, size_type n, const Elem* value)", x_insert)
     u.fn(r"T\* insert\(T\* p, const T& value\)\s*", A + "insert(p,value)", "Elem* insert_one(struct Arr* self, Elem* p, const Elem* value)", x_insert)
     return u
+
+
+# ------------------------------------------------------------------------------------------------
+# pointer wrappers: ClonePtr / CloneOnWritePtr / ReferencePtr (T := Obj)
+# ------------------------------------------------------------------------------------------------
+def split_top(s):
+    out, depth, cur = [], 0, ""
+    for ch in s:
+        if ch in "([{<":
+            depth += 1
+        elif ch in ")]}>":
+            depth -= 1
+        if ch == "," and depth == 0:
+            out.append(cur); cur = ""
+        else:
+            cur += ch
+    if cur.strip():
+        out.append(cur)
+    return [x.strip() for x in out]
+
+
+class PtrUnit(Unit):
+    """adds the constructor rule: mem-initialiser list -> statements at the top of the body
+       member(e) -> member = e;     Class(args) (delegating/base constructor) -> Class(args);   (then rewritten like any call)"""
+
+    def __init__(self, ctx, path, cls, data_members):
+        Unit.__init__(self, ctx, path)
+        self.cls, self.data = cls, data_members
+
+    def fn(self, anchor, name, header, rules=None, occurrence=1, this=True):
+        c = cut_function(self.src, anchor, name, occurrence=occurrence)
+        init = ""
+        log0 = []
+        hd = strip_comments(c.header)
+        m = re.search(r"\)\s*(?:noexcept\s*)?:\s*([^:].*)$", hd, re.S)
+        if m and re.match(r"\s*(explicit\s+)?~?%s\s*\(" % self.cls, hd):
+            items = split_top(m.group(1))
+            stm = []
+            for it in items:
+                mm = re.match(r"(\w+)\s*\((.*)\)$", it, re.S)
+                if not mm:
+                    raise ExtractionError("%s: cannot parse mem-initialiser '%s'" % (name, it))
+                stm.append("%s = %s;" % (mm.group(1), mm.group(2)) if mm.group(1) in self.data else "%s(%s);" % (mm.group(1), mm.group(2)))
+            init = " ".join(stm) + " "
+            log0.append(dict(rule="constructor mem-initialiser list -> statements (member(e) -> member = e; delegating ctor -> call)",
+                             pattern=m.group(1).strip(), replacement=init, hits=len(items), examples=items[:3]))
+        r = Rewriter("{" + init + c.body + "}", name)
+        r.log += log0
+        if rules:
+            rules(r)
+        self.common(r)
+        self.ctx.add_function(self.src, name, c.start, c.end, c.text, "M2", r.dropped, r.log)
+        self.protos.append(header + ";")
+        self.defs.append("/* %s  (%s:%d-%d) */\n%s\n%s\n" % (name, os.path.basename(self.src), c.start, c.end, header, r.text))
+        return r
+
+    def common(self, r):
+        pre = self.cls
+        r.sub("nullptr -> 0", r"\bnullptr\b", "0", None, 0)
+        r.sub("rvalue reference -> pointer: std::move(src)", r"std::move\((\w+)\)", r"\1", None, 0)
+        r.sub("reference -> pointer: src.member / other.member", r"\b(src|other)\.(p|count)\b", r"\1->\2", None, 0)
+        r.sub("reference -> pointer: src.f() / other.f()", r"\b(src|other)\.(\w+)\(\)", r"%s_\2(\1)" % pre, None, 0)
+        r.sub("reference -> pointer: &src != this", r"&src != this", "src != self", None, 0)
+        r.sub("reference -> pointer: return *this", r"return \*this;", "return self;", None, 0)
+        r.sub("reference -> pointer: &x (const T& x)", r"\(&x\)", "(x)", None, 0)
+        r.sub("T::clone() -> contracted stub", r"\b(\w+)->clone\(\)", r"Obj_clone(\1)", None, 0)
+        r.sub("delete p (T*) -> contracted stub", r"\bdelete p;", "Obj_delete(p);", None, 0)
+        r.sub("delete count (long*) -> contracted stub", r"\bdelete count;", "delete_long(count);", None, 0)
+        r.sub("new long(1) -> contracted stub", r"\bnew long\(1\)", "new_long(1)", None, 0)
+        r.sub("std::swap", r"std::swap\(", "VF_SWAP(", None, 0)
+        r.sub("template argument dropped (U := T)", r"\b(shareWith|moveFrom)<U>\(", r"\1(", None, 0)
+        r.sub("type: T -> Obj", r"\bT\b(?=\s*\*)", "Obj", None, 0)
+        for nm in self.self0:
+            r.sub("implicit-this-call:" + nm, r"(?<![\w.>_])%s\(\)" % nm, "%s_%s(self)" % (pre, nm), None, 0)
+        for nm in self.selfn:
+            r.sub("implicit-this-call:" + nm, r"(?<![\w.>_])%s\((?!\))" % nm, "%s_%s(self, " % (pre, nm), None, 0)
+        r.sub("static helper", r"(?<![\w.>_])cloneOrNull\(", "%s_cloneOrNull(" % pre, None, 0)
+        r.sub("delegating constructor -> call", r"(?<![\w.>_])%s\(\);" % pre, "%s_init_default(self);" % pre, None, 0)
+        r.sub("delegating constructor -> call", r"(?<![\w.>_])%s\((?!\))" % pre, "%s_init_ptr(self, " % pre, None, 0)
+        r.members(self.data)
+
+
+def build_ptr_unit(ctx):
+    parts = []
+    # ---------------- ClonePtr ----------------
+    u = PtrUnit(ctx, os.path.join(INTERNAL, "ClonePtr.h"), "ClonePtr", ["p"])
+    u.self0 = ["reset", "empty", "release", "get", "upd"]
+    u.selfn = ["reset"]
+    S = "struct ClonePtr"
+    u.fn(r"ClonePtr\(\) noexcept", "ClonePtr::ClonePtr()", "void ClonePtr_init_default(%s* self)" % S)
+    u.fn(r"explicit ClonePtr\(T\* x\) noexcept", "ClonePtr::ClonePtr(T*)", "void ClonePtr_init_ptr(%s* self, Obj* x)" % S)
+    u.fn(r"explicit ClonePtr\(const T\* x\)", "ClonePtr::ClonePtr(const T*)", "void ClonePtr_init_cloneptr(%s* self, const Obj* x)" % S)
+    u.fn(r"explicit ClonePtr\(const T& x\)", "ClonePtr::ClonePtr(const T&)", "void ClonePtr_init_cloneref(%s* self, const Obj* x)" % S,
+         lambda r: r.sub("overload by argument type: ClonePtr(const T*)", r"ClonePtr\(&x\);", "ClonePtr_init_cloneptr(self, x);", 1))
+    u.fn(r"ClonePtr\(const ClonePtr& src\)", "ClonePtr::ClonePtr(const ClonePtr&)", "void ClonePtr_init_copy(%s* self, const %s* src)" % (S, S))
+    u.fn(r"ClonePtr\(ClonePtr&& src\) noexcept", "ClonePtr::ClonePtr(ClonePtr&&)", "void ClonePtr_init_move(%s* self, %s* src)" % (S, S))
+    u.fn(r"ClonePtr& operator=\(const ClonePtr& src\)\s*", "ClonePtr::operator=(const ClonePtr&)", "%s* ClonePtr_assign_copy(%s* self, const %s* src)" % (S, S, S),
+         lambda r: assert_rule(r, 1))
+    u.fn(r"ClonePtr& operator=\(ClonePtr&& src\) noexcept\s*", "ClonePtr::operator=(ClonePtr&&)", "%s* ClonePtr_assign_move(%s* self, %s* src)" % (S, S, S),
+         lambda r: assert_rule(r, 1))
+    u.fn(r"ClonePtr& operator=\(const T& x\)\s*", "ClonePtr::operator=(const T&)", "%s* ClonePtr_assign_cloneref(%s* self, const Obj* x)" % (S, S))
+    u.fn(r"ClonePtr& operator=\(T\* x\) noexcept\s*", "ClonePtr::operator=(T*)", "%s* ClonePtr_assign_ptr(%s* self, Obj* x)" % (S, S))
+    u.fn(r"~ClonePtr\(\) noexcept\s*", "ClonePtr::~ClonePtr", "void ClonePtr_destroy(%s* self)" % S)
+    u.fn(r"const T\* get\(\) const noexcept\s*", "ClonePtr::get", "const Obj* ClonePtr_get(const %s* self)" % S)
+    u.fn(r"T\* upd\(\) noexcept\s*", "ClonePtr::upd", "Obj* ClonePtr_upd(%s* self)" % S)
+    u.fn(r"void reset\(\) noexcept\s*", "ClonePtr::reset()", "void ClonePtr_reset(%s* self)" % S)
+    u.fn(r"void reset\(T\* x\) noexcept\s*", "ClonePtr::reset(T*)", "void ClonePtr_reset_ptr(%s* self, Obj* x)" % S)
+    u.fn(r"void swap\(ClonePtr& other\) noexcept\s*", "ClonePtr::swap", "void ClonePtr_swap(%s* self, %s* other)" % (S, S))
+    u.fn(r"bool empty\(\) const noexcept\s*", "ClonePtr::empty", "bool ClonePtr_empty(const %s* self)" % S)
+    u.fn(r"T\* release\(\) noexcept\s*", "ClonePtr::release", "Obj* ClonePtr_release(%s* self)" % S)
+    u.fn(r"static T\* cloneOrNull\(const T\* src\)\s*", "ClonePtr::cloneOrNull", "Obj* ClonePtr_cloneOrNull(const Obj* src)")
+    parts.append(u.text().replace("ClonePtr_reset(self, ", "ClonePtr_reset_ptr(self, "))
+
+    # ---------------- CloneOnWritePtr ----------------
+    u = PtrUnit(ctx, os.path.join(INTERNAL, "CloneOnWritePtr.h"), "CloneOnWritePtr", ["p", "count"])
+    u.self0 = ["reset", "empty", "init", "incr", "decr", "detach", "use_count", "get", "upd"]
+    u.selfn = ["reset", "shareWith", "moveFrom"]
+    S = "struct CloneOnWritePtr"
+    u.fn(r"CloneOnWritePtr\(\) noexcept\s*", "CloneOnWritePtr::CloneOnWritePtr()", "void CloneOnWritePtr_init_default(%s* self)" % S)
+    u.fn(r"explicit CloneOnWritePtr\(T\* x\)", "CloneOnWritePtr::CloneOnWritePtr(T*)", "void CloneOnWritePtr_init_ptr(%s* self, Obj* x)" % S)
+    u.fn(r"explicit CloneOnWritePtr\(const T\* x\)", "CloneOnWritePtr::CloneOnWritePtr(const T*)",
+         "void CloneOnWritePtr_init_cloneptr(%s* self, const Obj* x)" % S)
+    u.fn(r"CloneOnWritePtr\(const CloneOnWritePtr& src\) noexcept", "CloneOnWritePtr::CloneOnWritePtr(const CloneOnWritePtr&)",
+         "void CloneOnWritePtr_init_copy(%s* self, const %s* src)" % (S, S))
+    u.fn(r"CloneOnWritePtr\(CloneOnWritePtr&& src\) noexcept", "CloneOnWritePtr::CloneOnWritePtr(CloneOnWritePtr&&)",
+         "void CloneOnWritePtr_init_move(%s* self, %s* src)" % (S, S))
+    u.fn(r"CloneOnWritePtr& operator=\(const CloneOnWritePtr& src\) noexcept\s*", "CloneOnWritePtr::operator=(const CloneOnWritePtr&)",
+         "%s* CloneOnWritePtr_assign_copy(%s* self, const %s* src)" % (S, S, S))
+    u.fn(r"CloneOnWritePtr& operator=\(CloneOnWritePtr&& src\) noexcept\s*", "CloneOnWritePtr::operator=(CloneOnWritePtr&&)",
+         "%s* CloneOnWritePtr_assign_move(%s* self, %s* src)" % (S, S, S))
+    u.fn(r"CloneOnWritePtr& operator=\(const T& x\)\s*", "CloneOnWritePtr::operator=(const T&)", "%s* CloneOnWritePtr_assign_cloneref(%s* self, const Obj* x)" % (S, S))
+    u.fn(r"CloneOnWritePtr& operator=\(T\* x\) noexcept\s*", "CloneOnWritePtr::operator=(T*)", "%s* CloneOnWritePtr_assign_ptr(%s* self, Obj* x)" % (S, S))
+    u.fn(r"~CloneOnWritePtr\(\) noexcept\s*", "CloneOnWritePtr::~CloneOnWritePtr", "void CloneOnWritePtr_destroy(%s* self)" % S)
+    u.fn(r"const T\* get\(\) const noexcept\s*", "CloneOnWritePtr::get", "const Obj* CloneOnWritePtr_get(const %s* self)" % S)
+    u.fn(r"T\* upd\(\)\s*", "CloneOnWritePtr::upd", "Obj* CloneOnWritePtr_upd(%s* self)" % S)
+    u.fn(r"void reset\(\) noexcept\s*", "CloneOnWritePtr::reset()", "void CloneOnWritePtr_reset(%s* self)" % S)
+    u.fn(r"void reset\(T\* x\)\s*", "CloneOnWritePtr::reset(T*)", "void CloneOnWritePtr_reset_ptr(%s* self, Obj* x)" % S)
+    u.fn(r"void swap\(CloneOnWritePtr& other\) noexcept\s*", "CloneOnWritePtr::swap", "void CloneOnWritePtr_swap(%s* self, %s* other)" % (S, S))
+    u.fn(r"long use_count\(\) const noexcept\s*", "CloneOnWritePtr::use_count", "long CloneOnWritePtr_use_count(const %s* self)" % S)
+    u.fn(r"bool unique\(\) const noexcept\s*", "CloneOnWritePtr::unique", "bool CloneOnWritePtr_unique(const %s* self)" % S)
+    u.fn(r"bool empty\(\) const noexcept\s*", "CloneOnWritePtr::empty", "bool CloneOnWritePtr_empty(const %s* self)" % S)
+    u.fn(r"T\* release\(\)\s*", "CloneOnWritePtr::release", "Obj* CloneOnWritePtr_release(%s* self)" % S)
+    u.fn(r"void detach\(\)\s*", "CloneOnWritePtr::detach", "void CloneOnWritePtr_detach(%s* self)" % S)
+    u.fn(r"static T\* cloneOrNull\(const T\* src\)\s*", "CloneOnWritePtr::cloneOrNull", "Obj* CloneOnWritePtr_cloneOrNull(const Obj* src)")
+    u.fn(r"void shareWith\(const CloneOnWritePtr<U>& src\) noexcept\s*", "CloneOnWritePtr::shareWith", "void CloneOnWritePtr_shareWith(%s* self, const %s* src)" % (S, S),
+         lambda r: assert_rule(r, 1))
+    u.fn(r"void moveFrom\(CloneOnWritePtr<U>&& src\) noexcept\s*", "CloneOnWritePtr::moveFrom", "void CloneOnWritePtr_moveFrom(%s* self, %s* src)" % (S, S),
+         lambda r: assert_rule(r, 1))
+    u.fn(r"long incr\(\) const noexcept\s*", "CloneOnWritePtr::incr", "long CloneOnWritePtr_incr(const %s* self)" % S, lambda r: assert_rule(r, 1))
+    u.fn(r"long decr\(\) const noexcept\s*", "CloneOnWritePtr::decr", "long CloneOnWritePtr_decr(const %s* self)" % S, lambda r: assert_rule(r, 1))
+    u.fn(r"void init\(\) noexcept\s*", "CloneOnWritePtr::init", "void CloneOnWritePtr_init(%s* self)" % S)
+    parts.append(u.text().replace("CloneOnWritePtr_reset(self, ", "CloneOnWritePtr_reset_ptr(self, "))
+
+    # ---------------- ReferencePtr ----------------
+    u = PtrUnit(ctx, os.path.join(INTERNAL, "ReferencePtr.h"), "ReferencePtr", ["p"])
+    u.self0 = ["reset", "empty", "release", "get"]
+    u.selfn = ["reset"]
+    S = "struct ReferencePtr"
+    u.fn(r"ReferencePtr\(\) noexcept", "ReferencePtr::ReferencePtr()", "void ReferencePtr_init_default(%s* self)" % S)
+    u.fn(r"explicit ReferencePtr\(T\* tp\) noexcept", "ReferencePtr::ReferencePtr(T*)", "void ReferencePtr_init_ptr(%s* self, Obj* tp)" % S)
+    u.fn(r"ReferencePtr\(const ReferencePtr&(?: src)?\) noexcept", "ReferencePtr::ReferencePtr(const ReferencePtr&)",
+         "void ReferencePtr_init_copy(%s* self, const %s* src)" % (S, S))
+    u.fn(r"ReferencePtr\(ReferencePtr&& src\) noexcept", "ReferencePtr::ReferencePtr(ReferencePtr&&)",
+         "void ReferencePtr_init_move(%s* self, %s* src)" % (S, S))
+    u.fn(r"ReferencePtr& operator=\(const ReferencePtr& src\) noexcept\s*", "ReferencePtr::operator=(const ReferencePtr&)",
+         "%s* ReferencePtr_assign_copy(%s* self, const %s* src)" % (S, S, S))
+    u.fn(r"ReferencePtr& operator=\(ReferencePtr&& src\) noexcept\s*", "ReferencePtr::operator=(ReferencePtr&&)",
+         "%s* ReferencePtr_assign_move(%s* self, %s* src)" % (S, S, S))
+    u.fn(r"~ReferencePtr\(\) noexcept\s*", "ReferencePtr::~ReferencePtr", "void ReferencePtr_destroy(%s* self)" % S)
+    u.fn(r"T\* get\(\) const noexcept\s*", "ReferencePtr::get", "Obj* ReferencePtr_get(const %s* self)" % S)
+    u.fn(r"void reset\(T\* tp=nullptr\) noexcept\s*", "ReferencePtr::reset", "void ReferencePtr_reset_ptr(%s* self, Obj* tp)" % S)
+    u.fn(r"void swap\(ReferencePtr& other\) noexcept\s*", "ReferencePtr::swap", "void ReferencePtr_swap(%s* self, %s* other)" % (S, S))
+    u.fn(r"bool empty\(\) const noexcept\s*", "ReferencePtr::empty", "bool ReferencePtr_empty(const %s* self)" % S)
+    u.fn(r"T\* release\(\) noexcept\s*", "ReferencePtr::release", "Obj* ReferencePtr_release(%s* self)" % S)
+    parts.append(u.text().replace("ReferencePtr_reset(self)", "ReferencePtr_reset_ptr(self, 0 /* default argument tp=nullptr */)").replace("ReferencePtr_reset(self, ", "ReferencePtr_reset_ptr(self, "))
+    return "\n".join(parts)
